@@ -345,7 +345,11 @@ def g_lagdrop(rng, i, **kw):
     scripts[0].append("asend:%d" % val); val += 1; sched.append("0*")
     if rng.random() < 0.5:
         scripts[1].append("apoll"); sched.append("1*")
-    scripts[2].append(rng.choice(["drop", "unsub"])); sched.append("2*")
+    if rng.random() < 0.5:
+        scripts[2].append(rng.choice(["drop", "unsub"])); sched.append("2*")
+    else:
+        for _ in range(rng.choice([1, n])):
+            scripts[2].append(rng.choice(["recv", "poll", "apoll"])); sched.append("2*")
     if rng.random() < 0.5:
         scripts[0].append("drop")
     return scen.Scn("lagdrop%d" % i, "B", "fut", cap, "fut", sf, sy, scripts, sched, limit=1500, tags=("lagdrop", "fut"))
@@ -368,6 +372,26 @@ def g_viewfull(rng, i, **kw):
     scripts[0].append("drop"); scripts[1].append("drop")
     sched += scen.sched_rand(rng, scripts, rng.choice([120, 300]))
     return scen.Scn("viewfull%d" % i, fl, "plain", cap, "busy", 0, 0, scripts, sched, limit=2500, tags=("viewfull", "view"))
+
+def g_pinleak(rng, i, **kw):
+    """a consumer is frozen between taking and releasing its reference on a slot while its sibling handle goes away;
+    afterwards everything is joined and a sequential probe fills and drains the ring several laps"""
+    cap = rng.choice([1, 2, 4])
+    n = cap_n(cap)
+    scripts = {0: [], 1: ["clone:2"], 2: []}
+    sched = ["1*"]
+    val = 1
+    for _ in range(rng.choice([1, n])):
+        scripts[0].append("send:%d" % val); val += 1; sched.append("0*")
+    scripts[1].append("recv")
+    sched += ["1"] * rng.choice([7, 8, 8, 9])
+    scripts[2].append(rng.choice(["drop", "unsub"])); sched.append("2*")
+    sched.append("1*")
+    scripts[0].append("sync"); scripts[1].append("sync")
+    for lap in range(3):
+        scripts[0] += ["send:%d" % (val + k) for k in range(n + 1)]; val += n + 1
+        scripts[1] += ["recv"] * (n + 1)
+    return scen.Scn("pinleak%d" % i, "B", "plain", cap, "busy", 0, 0, scripts, sched, limit=3000, tags=("pinleak", "quiesce"))
 
 def g_fut(rng, i, **kw):
     """sink tasks and stream tasks that await notifications"""
@@ -650,7 +674,7 @@ def g_solo(rng, i, **kw):
 
 GENS = {"seq": g_seq, "rand": g_rand, "pc": g_pc, "view": g_view, "teardown": g_teardown, "disc": g_disc,
         "norecv": g_norecv, "block": g_block, "fut": g_fut, "churn": g_churn, "quiesce": g_quiesce,
-        "addstream": g_addstream, "unsub": g_unsub, "handles": g_handles, "futseq": g_futseq, "solo": g_solo, "reclaim": g_reclaim, "lapped": g_lapped, "pinned": g_pinned, "norecv_churn": g_norecv_churn, "lastsend": g_lastsend, "lagdrop": g_lagdrop, "viewfull": g_viewfull}
+        "addstream": g_addstream, "unsub": g_unsub, "handles": g_handles, "futseq": g_futseq, "solo": g_solo, "reclaim": g_reclaim, "lapped": g_lapped, "pinned": g_pinned, "norecv_churn": g_norecv_churn, "lastsend": g_lastsend, "lagdrop": g_lagdrop, "viewfull": g_viewfull, "pinleak": g_pinleak}
 
 # ---------------------------------------------------------------- small scenarios for exhaustive schedules
 def smalls_ring():
@@ -671,10 +695,10 @@ PROPS = {
     "C05": {"gens": [("teardown", 90, {}), ("viewfull", 30, {}), ("rand", 30, {})], "small": smalls_ring()[:2], "oracles": ["C05"]},
     "C07": {"gens": [("disc", 100, {}), ("lastsend", 40, {}), ("rand", 20, {})], "small": [], "oracles": ["C07"]},
     "C13": {"gens": [("norecv", 110, {}), ("norecv_churn", 24, {}), ("rand", 20, {})], "small": [], "oracles": ["C13"]},
-    "C06": {"gens": [("quiesce", 150, {})], "small": [], "oracles": ["C06"]},
+    "C06": {"gens": [("quiesce", 130, {}), ("pinleak", 20, {})], "small": [], "oracles": ["C06"]},
     "C08": {"gens": [("block", 130, {}), ("lapped", 40, {})], "small": [], "oracles": ["C08"]},
     "C09": {"gens": [("seq", 100, {}), ("futseq", 45, {}), ("norecv_churn", 16, {})], "small": [], "oracles": ["C09"]},
-    "C10": {"gens": [("addstream", 150, {})], "small": [], "oracles": ["C01", "C03", "C10"]},
+    "C10": {"gens": [("addstream", 130, {}), ("lagdrop", 30, {})], "small": [], "oracles": ["C01", "C03", "C10", "C14"]},
     "C11": {"gens": [("unsub", 150, {})], "small": [], "oracles": ["C11", "C01", "C03"]},
     "C12": {"gens": [("handles", 150, {})], "small": smalls_ring()[:1], "oracles": ["C01", "C02", "C03"]},
     "C14": {"gens": [("fut", 140, {}), ("lagdrop", 30, {})], "small": [], "oracles": ["C14"]},
